@@ -357,8 +357,24 @@ func runName(c Case) (v vkit.Verdict) {
 	if (e1 != nil) != (e2 != nil) || (e1 == nil && (vkit.Off(ax-bx, 1e-6) || vkit.Off(ay-by, 1e-6))) {
 		return v.Fail("WGS84 (%v, %v) -> %s gives (%v, %v, %v) but -> its definition gives (%v, %v, %v)", c.Lon, lat, c.Name, ax, ay, e1, bx, by, e2)
 	}
+	// the web-mercator names also have a definition in the other notation: the .prj text ESRI software writes for them
+	// (PROJECTION "Mercator_Auxiliary_Sphere", which the package registers as a name of its Mercator)
+	switch c.Name {
+	case "EPSG:3857", "EPSG:3785", "GOOGLE", "EPSG:900913", "EPSG:102113":
+		v.Class("web_mercator_esri_prj")
+		ew, err := proj.Parse(esriWebMercator)
+		if err != nil {
+			return v.Fail("Parse of ESRI's .prj text for web mercator: %v", err)
+		}
+		cx, cy, e3 := tr(g, ew, c.Lon, lat)
+		if e1 == nil && (e3 != nil || vkit.Off(ax-cx, 1e-6) || vkit.Off(ay-cy, 1e-6)) {
+			return v.Fail("WGS84 (%v, %v) -> %s gives (%v, %v) but -> ESRI's .prj text for the same system gives (%v, %v, %v)", c.Lon, lat, c.Name, ax, ay, cx, cy, e3)
+		}
+	}
 	return v
 }
+
+const esriWebMercator = `PROJCS["WGS_1984_Web_Mercator_Auxiliary_Sphere",GEOGCS["GCS_WGS_1984",DATUM["D_WGS_1984",SPHEROID["WGS_1984",6378137.0,298.257223563]],PRIMEM["Greenwich",0.0],UNIT["Degree",0.0174532925199433]],PROJECTION["Mercator_Auxiliary_Sphere"],PARAMETER["False_Easting",0.0],PARAMETER["False_Northing",0.0],PARAMETER["Central_Meridian",0.0],PARAMETER["Standard_Parallel_1",0.0],PARAMETER["Auxiliary_Sphere_Type",0.0],UNIT["Meter",1.0]]`
 
 func runEqual(c Case) (v vkit.Verdict) {
 	v.Class("equal")
@@ -449,7 +465,8 @@ func TestProp(t *testing.T) {
 			"(*shp.Decoder).SR from a .prj file. Registered names vs their definitions: Equal both ways, nil transformer, same outputs. Equal/NewTransform on generated pairs (identical, towgs84 lists of " +
 			"different length, one parameter changed, one parameter present on one side only, unrelated; and pairs both rendered as WKT with the same PROJCS name - identical, central meridian / false easting / unit / datum changed, unrelated): no panic, symmetric, NewTransform nil iff Equal, and Equal references map WGS84 positions identically. Non-trivial = non-metre unit, " +
 			"TOWGS84 clause, OGC-dialect Albers; name cases; equal cases with different towgs84 lengths or Equal true. Distinct by case hash." +
-			" Round 9: decoy parses between parsing a reference and using it; free-text WKT names with commas or of one character.",
+			" Round 9: decoy parses between parsing a reference and using it; free-text WKT names with commas or of one character." +
+			" Round 10: in a third of the WKT cases every transformer is asked for five impossible positions before the real one; the web-mercator names are also compared with ESRI's .prj text for them.",
 		Assumptions: []string{"WKT without blanks after commas (as GDAL and ESRI write .prj files)", "definitions that give no datum information are not compared across notations (PROJ.4 text: unknown datum; WKT: always names a datum)"},
 		Gen:         gen,
 		Run:         run,
